@@ -171,7 +171,7 @@ Definition mstep (k : mkind) (s : mstate) (l : mlabel) : option mstate :=
           if match m_out m with None => true | Some _ => false end
              && nodupn r && incln r (rows_of s (m_srcs m)) && incln (rows_of s (m_srcs m)) r then
             Some (mkM (s_files s ++ [mkFile blocks false]) (s_meta s) (s_pending s) (s_commit s) (s_acked s) (s_ingested s)
-                      (Some (mkMerge (m_srcs m) (Some (length (s_files s))) false)) (with_merge_step s))
+                      (Some (mkMerge (m_srcs m) (Some (length (s_files s))) (m_committed m))) (with_merge_step s))
           else None
       | None => None
       end
